@@ -546,6 +546,10 @@ func genC11Crafted(cfg Config, emit Emit) {
 		emit("reqcraft", []string{"with", "lib/uri", hexTok([]byte(w))}, "crafted/uri-with", true)
 	}
 	genConv(emit)
+	// a well-formed request followed by a damaged, cut or empty trailing section
+	for k := 0; k < 10; k++ {
+		emit("reqcraft", []string{"trailing", itoa(k), "-"}, "crafted/trailing-section", true)
+	}
 	// a method that reports the validator's typed errors itself: expired / not yet valid / fine invocations
 	for k := 0; k < 6; k++ {
 		emit("reqcraft", []string{"precheck", itoa(k), "-"}, "crafted/precheck", true)
@@ -621,6 +625,45 @@ func execReqCraft(a []string) (res Result) {
 			oracle = "fail:a union of caveat readers handed the handler " + impl + " (expected the lenient reading {f9:9} for the list, then the strict reading {f1:42})"
 		}
 		return Result{Impl: "status:200|or", Oracle: oracle, Extra: map[string]any{"calls": impl}}
+	case "trailing":
+		k := atoi(a[1])
+		inv, err := invocation.Invoke(alice, svc, ucan.NewCapability("store/add", alice.DID().String(), NbMap{F: map[string]any{}}), delegation.WithNoExpiration(), delegation.WithNonce("trailing"))
+		if err != nil {
+			return Result{Impl: "skip:" + err.Error(), Oracle: "ok"}
+		}
+		msg, err := message.Build([]invocation.Invocation{inv}, nil)
+		if err != nil {
+			return Result{Impl: "skip:" + err.Error(), Oracle: "ok"}
+		}
+		body, _ = io.ReadAll(car.Encode([]ipld.Link{msg.Root().Link()}, msg.Blocks()))
+		junk := rawCborBlock([]byte{0x18, 0x2a})
+		cb := junk.Link().(cidlink.Link).Cid.Bytes()
+		section := appendUvarint(nil, uint64(len(cb)+len(junk.Bytes())))
+		section = append(append(section, cb...), junk.Bytes()...)
+		switch k {
+		case 0:
+			body = append(body, section[:len(section)-1]...)
+		case 1:
+			body = append(body, section[:len(section)/2]...)
+		case 2:
+			body = append(body, section[:1]...)
+		case 3:
+			bad := append([]byte{}, section...)
+			bad[len(bad)-1] ^= 1
+			body = append(body, bad...)
+		case 4:
+			body = append(body, 0x05, 0xff, 0xff, 0xff, 0xff, 0xff)
+		case 5:
+			body = append(body, 0x00)
+		case 6:
+			body = append(append(body, 0x00), section...)
+		case 7:
+			body = append(body, 0xff, 0xff, 0xff, 0xff, 0x0f)
+		case 8:
+			body = append(append(body, section...), section[:3]...)
+		case 9:
+			body = append(body, section[:len(section)-len(junk.Bytes())]...)
+		}
 	case "precheck":
 		k := atoi(a[1])
 		mk := func(o ...delegation.Option) invocation.Invocation {
